@@ -48,18 +48,26 @@ const basePreamble = `(declare-datatypes ((Slice 0)) (((mk_slice (s_arr Int) (s_
 (assert (= (f32 1065353216) ((_ to_fp 8 24) RNE 1.0)))
 `
 
-func (P *Prog) preamble() string {
+func (P *Prog) preamble(reveal func(string) bool) string {
 	var b strings.Builder
 	b.WriteString(basePreamble)
 	b.WriteString(P.ss.declareDatatypes())
-	b.WriteString(P.recDefs())
+	b.WriteString(P.recDefs(reveal))
 	return b.String()
 }
 
-func (o *Obligation) script(P *Prog, models bool) string {
+func (o *Obligation) script(P *Prog, models bool) string { return o.scriptV(P, models, false) }
+
+// scriptV: with hide set, definitions of opaque spec functions that the goal does not
+// mention are withheld (a weaker, hence still sound, set of hypotheses).
+func (o *Obligation) scriptV(P *Prog, models bool, hide bool) string {
 	var b strings.Builder
 	b.WriteString("(set-option :produce-models true)\n(set-logic ALL)\n")
-	b.WriteString(P.preamble())
+	var reveal func(string) bool
+	if hide {
+		reveal = func(name string) bool { return P.mentionsTransitively(o.Neg, name) }
+	}
+	b.WriteString(P.preamble(reveal))
 	for _, d := range o.Decls {
 		b.WriteString(d)
 		b.WriteByte('\n')
@@ -122,7 +130,22 @@ func runSolver(ctx context.Context, sd solverDef, script string, timeoutMs int) 
 
 // solve races the solvers on one obligation.
 func solve(P *Prog, o *Obligation, timeoutMs int, all bool) *Result {
-	script := o.script(P, true)
+	if !o.Cover && len(P.usedRec) > 0 && !all {
+		// phase 1: definitions of opaque functions not mentioned by the goal are hidden
+		hidden := o.scriptV(P, true, true)
+		full := o.script(P, true)
+		if hidden != full {
+			r := solveScript(hidden, timeoutMs/3, false)
+			if r.Verdict == "unsat" {
+				r.Solver += "(hidden-defs)"
+				return r
+			}
+		}
+	}
+	return solveScript(o.script(P, true), timeoutMs, all)
+}
+
+func solveScript(script string, timeoutMs int, all bool) *Result {
 	ctx, cancel := context.WithCancel(context.Background())
 	defer cancel()
 	type ans struct {
